@@ -39,7 +39,7 @@ PROPS['C11'] = {
         "insert markers of a commit name offsets already reserved by next() (true for transactions of the collection itself; a replica that replays and inserts locally at the same time is outside)",
         "second sentence (no stale data) is partial: findings D9, D10, D11 (KNOWN_FINDINGS.json)",
     ],
-    'level_text': "Lean theorems over the executable fill-list model (the same findFreeIndex/next/free the driver runs): for every fill pattern and length, next() returns an unoccupied offset whenever popcount ≤ count; the invariant is preserved by every atomic fill section, hence in every history/interleaving of inserts, failed inserts, commits and rollbacks no insert receives an occupied offset; freed offsets are available again; Count = popcount at quiescence. Tied to the code by differential histories steering fill patterns across 64-bit word and 16K chunk edges with all capacities.",
+    'level_text': "Lean theorems over the executable fill-list model (the same findFreeIndex/next/free the driver runs): for every fill pattern and length, next() returns an unoccupied offset whenever popcount ≤ count; the invariant is preserved by every atomic fill section, hence in every history/interleaving of inserts, failed inserts, commits and rollbacks no insert receives an occupied offset; freed offsets are available again; Count = popcount at quiescence. Tied to the code by differential histories steering fill patterns across 64-bit word and 16K chunk edges with all capacities. Added late: a third of the histories with a sorted index and bitmap indexes, a third with a key column (stale computed state at reused offsets).",
     'technique': 'Lean 4 proof (invariant over all histories of atomic fill sections) + model/implementation correspondence',
     'design_ref': '§6 C11',
 }
@@ -68,7 +68,7 @@ PROPS['C16'] = {
         "the index follows its string column under the guard 'no op follows a resizing merge on the same offset in one section' (finding D12)",
         "store level (Props/C16store): commit_sortInv (SortInv through Store.commit for any target kind and any ops, resizing merges included), commit_inSync / commits_inSync / commits_sorted_reads (the entry of every offset is what the column reads, after any sequence of commits) under NoAppend (merge results keep the delta's length, or no merges) — with a resizing merge only SortInv is proved (D12)",
     ],
-    'level_text': "Lean theorems over the executable sorted-index model: the comparator (key, then offset) is a strict total order; SortInv (entries strictly sorted, one entry per offset, consistent back map) holds for a fresh index and is preserved by every op list, back-fill and history; the entry of an offset is decided by the last Put/Delete addressed to it (overwrite, delete, delete-then-reinsert, equal keys coexist); Ascend visits exactly the selected rows with an entry, each once, keys non-decreasing; with the index in sync with its string column (preserved by every section without resizing merges) that is exactly the selected rows holding a value in non-decreasing order of their current values. Tied to the code by differential histories over a small alphabet with the index created before/after the data and arbitrary filter chains, plus a Go-side sort oracle.",
+    'level_text': "Lean theorems over the executable sorted-index model: the comparator (key, then offset) is a strict total order; SortInv (entries strictly sorted, one entry per offset, consistent back map) holds for a fresh index and is preserved by every op list, back-fill and history; the entry of an offset is decided by the last Put/Delete addressed to it (overwrite, delete, delete-then-reinsert, equal keys coexist); Ascend visits exactly the selected rows with an entry, each once, keys non-decreasing; with the index in sync with its string column (preserved by every section without resizing merges) that is exactly the selected rows holding a value in non-decreasing order of their current values. Tied to the code by differential histories over a small alphabet with the index created before/after the data and arbitrary filter chains, plus a Go-side sort oracle. Added late: scheduler scenario sort-backfill (CreateSortIndex beside a writer of the indexed column).",
     'technique': 'Lean 4 proof (order axioms, invariant by induction over op lists) + model/implementation correspondence',
     'design_ref': '§6 C16',
 }
@@ -96,7 +96,7 @@ PROPS['C12'] = {
         "KeyInv is preserved under the guard WFKeyOps (each Put's key is new or already this row's; Deletes hit present rows) — at column level and, in Props/C12store, through the real Store.commit and any sequence of commits (commit_key_inv, commits_key_inv, offsetOf_after_commit: after the commit a lookup by key resolves exactly to the present row holding it, two rows never hold one key; commit_key_delete_releases: the key can be inserted again); outside the guard: findings D14 (duplicate key in one transaction) and the stale-delete observation, both with counterexample theorems",
         "concurrent InsertKey of one key (check-then-insert not atomic) is finding D14's second facet; exercised by the scheduler, not proved absent",
     ],
-    'level_text': "Lean theorems over the executable key-column model and the four key operations: KeyInv (the table maps exactly the keys of present rows to their rows; hence one live row per key and lookup reaches it) is preserved by every guarded op list (fresh insert, re-key with release of the old key, same-key overwrite, delete), the old key no longer resolves and can be inserted again; InsertKey fails iff the key resolves, UpsertKey updates the existing row or reserves exactly one offset and buffers the key, QueryKey/DeleteKey fail iff absent, noKey iff there is no key column; counterexamples for D14 and stale delete. Tied to the code by differential histories over a 6-letter key alphabet with a Go-side key-map oracle.",
+    'level_text': "Lean theorems over the executable key-column model and the four key operations: KeyInv (the table maps exactly the keys of present rows to their rows; hence one live row per key and lookup reaches it) is preserved by every guarded op list (fresh insert, re-key with release of the old key, same-key overwrite, delete), the old key no longer resolves and can be inserted again; InsertKey fails iff the key resolves, UpsertKey updates the existing row or reserves exactly one offset and buffers the key, QueryKey/DeleteKey fail iff absent, noKey iff there is no key column; counterexamples for D14 and stale delete. Tied to the code by differential histories over a 6-letter key alphabet with a Go-side key-map oracle. Added late: re-keying through Row.SetKey, failing keyed callbacks, callbacks ending on another row.",
     'technique': 'Lean 4 proof (invariant by induction over op lists; decision logic stated outright) + model/implementation correspondence',
     'design_ref': '§6 C12',
 }
@@ -218,7 +218,7 @@ PROPS['C06'] = {
         "a Delete does not carry the stale raw bytes of a slot: replica and primary agree on everything a reader can see (VisEq), not on dead bytes",
         "store level (Props/C06store): replica_converges_store / replica_converges_fresh — for any sequence of well-formed transactions committed on a primary with the log-file logger and a replica with the same column names (kinds matching, merge functions, hash, capacity free) replaying the whole emitted stream through the real Store.replay, every numeric column reads the same on both sides and the fill lists agree; inserts (reservation before the commit) included; strings/records under NoAppend/StrGuard, keys with equal lookup tables (replica_converges_store_key); channel logger: the same for single-chunk transactions, and the kernel-checked D16 history channel_multichunk_counterexample (T1 chunk 0, T3, T1 chunk 1: the channel-fed replica reads 1 where the primary and the log-fed replica read 3); enum columns by the correspondence only (the replica would need the primary's hash)",
     ],
-    'level_text': "Lean theorems. Sequential core (executable column model): the section a commit emits contains no Merge (every merge rewritten into a Put of the stored result), so replaying it never consults the replica's merge function or previous data; a replica in sync stays in sync slot by slot through every pass, and over whole histories (numeric unconditionally, strings under the D12 guard); lifted through the real Store.commit / emission / Store.replay: what a commit emits is the rewritten ops of each dirty chunk in ascending order (emitted_stream_num), replaying it keeps the replica equal, for whole histories (replica_converges_store). Schedule part (small-step machine, any number of writers/chunks/steps, arbitrary merge): the value a replica holds after replaying the stream in arrival order is the primary's value after the prefix of commits already handed to the logger, and equals the primary's value whenever the primary is quiescent; streams of different chunks commute. Tied to the code by the regenerated skeleton (emission inside the latch, Clone carries the id), differential histories with a replica through both loggers, and controlled schedules of racing writers with a replica-dump oracle.",
+    'level_text': "Lean theorems. Sequential core (executable column model): the section a commit emits contains no Merge (every merge rewritten into a Put of the stored result), so replaying it never consults the replica's merge function or previous data; a replica in sync stays in sync slot by slot through every pass, and over whole histories (numeric unconditionally, strings under the D12 guard); lifted through the real Store.commit / emission / Store.replay: what a commit emits is the rewritten ops of each dirty chunk in ascending order (emitted_stream_num), replaying it keeps the replica equal, for whole histories (replica_converges_store). Schedule part (small-step machine, any number of writers/chunks/steps, arbitrary merge): the value a replica holds after replaying the stream in arrival order is the primary's value after the prefix of commits already handed to the logger, and equals the primary's value whenever the primary is quiescent; streams of different chunks commute. Tied to the code by the regenerated skeleton (emission inside the latch, Clone carries the id), differential histories with a replica through both loggers, and controlled schedules of racing writers with a replica-dump oracle. Added late: the log-file form of the stream under real parallelism (stress `logFileWitness`: one writer per block, file read back and replayed into a replica) and the flag appendCopyShareMutex.",
     'technique': 'Lean 4 proof (absolute-commit replay lemma; machine invariant over all schedules) + regenerated protocol skeleton + correspondence + controlled scheduling',
     'design_ref': '§6 C06',
 }
@@ -250,7 +250,7 @@ PROPS['C14'] = {
     'assumptions': [
         "the resource model has three fault classes (open temp, write state, copy log); which write call / byte budget fails inside a class is quantified by the correspondence, not by the model",
     ],
-    'level_text': "Lean theorems over the Snapshot resource machine (recorder slot, descriptors, temp files, running compressor goroutines), for every fault combination and every history of calls: an error is returned exactly when something failed; afterwards the recorder is released and no descriptor, temp file or goroutine is left; a concurrent second snapshot is refused without leak; a later healthy snapshot succeeds; counterexamples for the code before the repairs (D5; D27: 54 snapshots leave 108 goroutines). The clean-up actions (defers right after the open, clean-up on CAS failure, close before copy, both compressors closed) are read from the regenerated skeleton. Tied to the code by injecting a failure at every write call and byte budget (once / forever) on empty, one-chunk and three-chunk collections, comparing the observed (recorder, fd delta, temp delta, goroutine delta, error) of every call with the model, and checking that commits (multi-column write and read-back, a write to every chunk within 10 s), a healthy snapshot + restore still work; shapes: empty, one chunk, three chunks, one chunk larger than the compressor's block, the same with a transaction committing during the snapshot; failing snapshots beside writers on a collection with a commit log (every committed transaction reaches the log).",
+    'level_text': "Lean theorems over the Snapshot resource machine (recorder slot, descriptors, temp files, running compressor goroutines), for every fault combination and every history of calls: an error is returned exactly when something failed; afterwards the recorder is released and no descriptor, temp file or goroutine is left; a concurrent second snapshot is refused without leak; a later healthy snapshot succeeds; counterexamples for the code before the repairs (D5; D27: 54 snapshots leave 108 goroutines). The clean-up actions (defers right after the open, clean-up on CAS failure, close before copy, both compressors closed) are read from the regenerated skeleton. Tied to the code by injecting a failure at every write call and byte budget (once / forever) on empty, one-chunk and three-chunk collections, comparing the observed (recorder, fd delta, temp delta, goroutine delta, error) of every call with the model, and checking that commits (multi-column write and read-back, a write to every chunk within 10 s), a healthy snapshot + restore still work; shapes: empty, one chunk, three chunks, one chunk larger than the compressor's block, the same with a transaction committing during the snapshot; failing snapshots beside writers on a collection with a commit log (every committed transaction reaches the log). Added late: flag column, computed columns of every sort and a late data column in the collections under test.",
     'technique': 'Lean 4 proof (case analysis over fault combinations, induction over call histories) + regenerated protocol skeleton + fault-injection correspondence',
     'design_ref': '§6 C14',
 }
@@ -266,7 +266,7 @@ PROPS['C08'] = {
         "partial on in-flight reservations: an insert reserved but not yet committed shows up as an empty row in the chunk's insert markers (finding D17)",
         "the chunk read happens under the chunk's read latch and the collection lock, the recorder pointer is looked at inside the latch section, Append/Copy share the log mutex, Restore filters by id: flag theorems over the regenerated skeleton",
     ],
-    'level_text': "Lean theorems over the small-step snapshot machine (any number of writers, chunks, steps; every schedule; pointer load and log append are separate steps that close/copy may split): once the log is copied, for every chunk read the restored content is a suffix of the chunk's content at copy time and of its final content (= the primary's block after a prefix of the commits applied to it, in apply order: nothing lost from the middle, nothing out of order, nothing that was not committed when Snapshot returned), it contains every commit whose latch section had finished when the call began, and it is strictly ordered (no commit twice); the recorded set is prefix-closed per chunk at every point. Tied to the code by the regenerated skeleton and by controlled schedules of a snapshot against 2–3 writers over 1–2 chunks with yield points after open, before each chunk read, before close and before copy, checked by a per-chunk prefix oracle on the restored collection.",
+    'level_text': "Lean theorems over the small-step snapshot machine (any number of writers, chunks, steps; every schedule; pointer load and log append are separate steps that close/copy may split): once the log is copied, for every chunk read the restored content is a suffix of the chunk's content at copy time and of its final content (= the primary's block after a prefix of the commits applied to it, in apply order: nothing lost from the middle, nothing out of order, nothing that was not committed when Snapshot returned), it contains every commit whose latch section had finished when the call began, and it is strictly ordered (no commit twice); the recorded set is prefix-closed per chunk at every point. Tied to the code by the regenerated skeleton and by controlled schedules of a snapshot against 2–3 writers over 1–2 chunks with yield points after open, before each chunk read, before close and before copy, checked by a per-chunk prefix oracle on the restored collection. Added late: store histories in which a transaction commits during most snapshot cycles (all column kinds, merges of every width in it, marker-only transactions), restored through re-blocked streams.",
     'technique': 'Lean 4 proof (invariant over all reachable worlds of the snapshot machine) + regenerated protocol skeleton + controlled scheduling',
     'design_ref': '§6 C08',
 }
@@ -281,7 +281,7 @@ PROPS['C17'] = {
         "PARTIAL: 'within a few cleanup intervals' depends on Go timers and scheduling, which no model here exhibits; it is observed with margins by the ttl mode",
         "Extend on a row without a deadline (observation O1) is outside the property; recorded as a counterexample theorem",
     ],
-    'level_text': "PARTIAL. Lean theorems over the executable model: a vacuum pass (With(expire) + ExpiresAt + now.After) deletes a row iff it is live, holds a deadline value, the deadline is non-zero and strictly before now — for every store, clock reading and offset (via C04's filter theorems); hence rows without TTL / with a future deadline are never removed and a passed deadline is removed by the next pass; TTL arithmetic (positive TTL = now + ttl, non-positive = never; Extend adds) carried down to the stored bytes and through the real Store.commit: the deadline column is a plain int64 column whose merge is wrapping addition (addMerge64_sem), a committed Set(ttl) / Extend(delta) makes the next passes delete the row exactly when now+ttl resp. d+delta lies before the clock (commit_set_then_vacuumPass, commit_extend_then_vacuumPass; in-range, non-zero deadlines). The decision's shape in the source (ExpiresAt, now.After, `ok && expireAt != 0`, `ttl > 0`) is read from the regenerated skeleton. Tied to the code by running the real vacuum goroutine at 1–100 ms intervals over rows with all deadline kinds under concurrent updates, inserts and deletes, with generous margins, comparing every judged observation with the model's decision; and by differential histories (store mode) that write and merge the deadline column itself (Set = store, Extend = additive merge) across chunks, through offset re-use, replication (both loggers) and snapshot/restore, with replica- and restore-equality oracles.",
+    'level_text': "PARTIAL. Lean theorems over the executable model: a vacuum pass (With(expire) + ExpiresAt + now.After) deletes a row iff it is live, holds a deadline value, the deadline is non-zero and strictly before now — for every store, clock reading and offset (via C04's filter theorems); hence rows without TTL / with a future deadline are never removed and a passed deadline is removed by the next pass; TTL arithmetic (positive TTL = now + ttl, non-positive = never; Extend adds) carried down to the stored bytes and through the real Store.commit: the deadline column is a plain int64 column whose merge is wrapping addition (addMerge64_sem), a committed Set(ttl) / Extend(delta) makes the next passes delete the row exactly when now+ttl resp. d+delta lies before the clock (commit_set_then_vacuumPass, commit_extend_then_vacuumPass; in-range, non-zero deadlines). The decision's shape in the source (ExpiresAt, now.After, `ok && expireAt != 0`, `ttl > 0`) is read from the regenerated skeleton. Tied to the code by running the real vacuum goroutine at 1–100 ms intervals over rows with all deadline kinds under concurrent updates, inserts and deletes, with generous margins, comparing every judged observation with the model's decision; and by differential histories (store mode) that write and merge the deadline column itself (Set = store, Extend = additive merge) across chunks, through offset re-use, replication (both loggers) and snapshot/restore, with replica- and restore-equality oracles. Added late: deadline read back through ExpiresAt / TTL(); a second wave of TTL writes judged against clock readings around the call.",
     'technique': 'Lean 4 proof (decision logic stated outright) + regenerated protocol skeleton + timed observation of the real goroutine',
     'design_ref': '§6 C17',
 }
@@ -298,7 +298,7 @@ PROPS['C07'] = {
         "'the same Count', 'new inserts never overwrite restored rows' and 'later snapshots round-trip again' are theorems of Props/C07more (readState_count_eq, restored_insert_not_restored_row, restored_inserts_never_collide, snapshot_again_numeric, snapshot_again_row) for the fill list and numeric columns; Count equality needs the source and the target to be quiescent (count = popcount) — a target with a stale counter and a source chunk without live rows keeps the stale counter (kernel-checked example readState_count_needs_hypothesis; not reachable from NewCollection); the other kinds are exercised by continuing the same history on both collections in the correspondence",
         "byte level of the state stream: Model/StateWire (encState/readStateRaw) with C07wire.state_roundtrip / state_roundtrip_ops / snapshot_buffers_count, tied byte for byte by the statehash op (FNV of the uncompressed state section, commit ids by rank) in every snapshot cycle; s2 compression is outside the model",
     ],
-    'level_text': "Lean theorems over the executable snapshot model: the state a snapshot writes for a chunk (one insert marker per occupied offset, one Put per present value) applied to a fresh column / fill list reproduces every read and every fill bit of that chunk (numeric, string, record, key, bool; other chunks untouched; no panic); readState of a snapshot is a fold of per-chunk commits, and through the real Store.commit every committed offset of a numeric column reads the same in the restored store and the fill lists agree (identical rows at identical offsets); the bytes writeState emits decode (readState) to exactly the written chunk ids and buffers, operation for operation, and every chunk carries exactly `columns` buffers. Tied to the code by differential snapshot→restore→continue cycles over all column kinds incl. enum, bool, record, key, expire, sparse and dense chunks, differing capacities, with a Go-side dump-equality oracle.",
+    'level_text': "Lean theorems over the executable snapshot model: the state a snapshot writes for a chunk (one insert marker per occupied offset, one Put per present value) applied to a fresh column / fill list reproduces every read and every fill bit of that chunk (numeric, string, record, key, bool; other chunks untouched; no panic); readState of a snapshot is a fold of per-chunk commits, and through the real Store.commit every committed offset of a numeric column reads the same in the restored store and the fill lists agree (identical rows at identical offsets); the bytes writeState emits decode (readState) to exactly the written chunk ids and buffers, operation for operation, and every chunk carries exactly `columns` buffers. Tied to the code by differential snapshot→restore→continue cycles over all column kinds incl. enum, bool, record, key, expire, sparse and dense chunks, differing capacities, with a Go-side dump-equality oracle. Added late: every other restore reads the snapshot re-cut into irregular compression blocks (short reads at every block end).",
     'technique': 'Lean 4 proof (snapshot buffer round trip at column level; fold of chunk commits at store level) + model/implementation correspondence',
     'design_ref': '§6 C07',
 }
